@@ -118,11 +118,9 @@ Qed.
 Example C02_gap_bound_value : N.of_nat gap_bound = 2147483648%N.
 Proof. exact gap_bound_N. Qed.
 
-(** The instances of [prime_gap] for every size up to 2300 (six growths from the default capacity)
-    are checked by computation; beyond that it is Bertrand's postulate. *)
-Theorem C02_prime_gap_checked_upto_2300 :
-  forall n, 31 <= n <= 2300 -> exists p, n <= p < n + (n + 2) /\ is_prime p = true.
-Proof. exact prime_gap_upto_2300. Qed.
+(** The instances of [prime_gap] for every size up to [gap_bound] = 2^31 are checked by computation. *)
+Theorem C02_prime_gap_checked : prime_gap_upto gap_bound.
+Proof. exact prime_gap_checked. Qed.
 
 (** Non-vacuity: one history on each of the four tables under the constant hash function
     (every key collides): put 40 keys (all tables grow at least once), delete and revive some. *)
@@ -180,4 +178,4 @@ Print Assumptions C02_refines_quadratic_partial.
 Print Assumptions C02_refines_double_partial.
 Print Assumptions C02_refines_quadratic_bounded.
 Print Assumptions C02_refines_double_bounded.
-Print Assumptions C02_prime_gap_checked_upto_2300.
+Print Assumptions C02_prime_gap_checked.
